@@ -1,4 +1,5 @@
 From Coq Require Import Extraction ExtrOcamlBasic.
-From TK Require Import Shapes_Model Shapes_Spec.
+From TK Require Import Shapes_Model Shapes_Spec Shapes_Src Shapes_SrcTie.
 Extraction "c01_model.ml" outcome_of embed_model all_fixed head pre_round2 shipped f7_zone
-  kdouble spe_clamp eig_dense hlle_cols.
+  kdouble spe_clamp eig_dense hlle_cols src_differs src_differs_mask vp_build cover_sets_access
+  perplexity_search.
